@@ -62,6 +62,18 @@ Proof.
   intros. rewrite evict_streams_unfold. destruct (fold_left _ _ _) as [[a b] d]. reflexivity.
 Qed.
 
+Lemma conns_pub : forall c s sid space topic claim relayed wf,
+  sv_conns (fst (handle_pub c s sid space topic claim relayed wf)) = sv_conns s.
+Proof. intros. destruct (handle_pub_state c s sid space topic claim relayed wf) as [rate E]. rewrite E. reflexivity. Qed.
+
+Lemma has_pub : forall c s sid space topic claim relayed wf sigma sp q,
+  has (fst (handle_pub c s sid space topic claim relayed wf)) sigma sp q = has s sigma sp q.
+Proof. intros. destruct (handle_pub_state c s sid space topic claim relayed wf) as [rate E]. rewrite E. reflexivity. Qed.
+
+Lemma in_pool_pub : forall c s sid space topic claim relayed wf x,
+  in_pool (fst (handle_pub c s sid space topic claim relayed wf)) x = in_pool s x.
+Proof. intros. destruct (handle_pub_state c s sid space topic claim relayed wf) as [rate E]. rewrite E. reflexivity. Qed.
+
 Lemma conns_step : forall c s e x,
   nassoc x (sv_conns (fst (svc_step c s e))) <> None ->
   nassoc x (sv_conns s) <> None \/ exists a, e = EOpen x a.
@@ -89,6 +101,9 @@ Proof.
       unfold on_stream_close. destruct (nassoc victim (sv_streams s2)); reflexivity.
     + pose proof (conns_sub c s sid space pats) as E. destruct (handle_sub c s sid space pats) as [s2 o]. cbn [fst] in *.
       rewrite conns_pool_remove, E in H. exact H.
+  - left. rewrite pub_mid_fst in H. destruct (pub_reaches_lookup c s sid space topic claim relayed wellformed).
+    + rewrite conns_pub, conns_pool_remove in H. exact H.
+    + rewrite conns_pool_remove, conns_pub in H. exact H.
 Qed.
 
 Lemma svc_exec_cons : forall c s e r, svc_exec c s (e :: r) = svc_exec c (fst (svc_step c s e)) r.
@@ -389,6 +404,7 @@ Definition withdraws (s : svc) (e : ev) (sid sp : N) (p : str) : Prop :=
   | EEvict sp' a => sp' = sp /\ nassoc sid (sv_conns s) = Some a
   | ERevalidate sp' => sp' = sp /\ exists a, nassoc sid (sv_conns s) = Some a /\ is_member s sp a = false
   | ECloseSpace sp' => sp' = sp
+  | EPubMid sid' _ _ _ _ _ => sid' = sid       (* the publisher's stream goes away: all its interest is withdrawn *)
   | _ => False
   end.
 (* events that can register interest: Subscribe, also the one during which a stream leaves the pool *)
@@ -442,6 +458,13 @@ Proof.
       rewrite H2 in Hdone. discriminate.
   - split; [intros sigma sp q H; exact H|contradiction].
   - split; [intros sigma sp q H; exact H|contradiction].
+  - rewrite pub_mid_fst. destruct (pub_reaches_lookup c s sid space topic claim relayed wellformed).
+    + split.
+      * intros sigma sp q H. rewrite has_pub, has_pool_remove in H by exact HI. apply andb_true_iff in H. apply H.
+      * intros sigma sp q ->. rewrite has_pub, has_pool_remove by exact HI. rewrite N.eqb_refl. apply andb_false_r.
+    + pose proof (inv_pub c s sid space topic claim relayed wellformed HI) as HI2. split.
+      * intros sigma sp q H. rewrite has_pool_remove in H by exact HI2. rewrite has_pub in H. apply andb_true_iff in H. apply H.
+      * intros sigma sp q ->. rewrite has_pool_remove by exact HI2. rewrite N.eqb_refl. apply andb_false_r.
 Qed.
 
 Lemma nodup_app_fst : forall {A} (a b : list A), NoDup (a ++ b) -> NoDup a.
